@@ -98,6 +98,13 @@ def deviations(data, tier, pairs=False):
             for pl in payloads:
                 s2 = secs[:pos] + [wp.custom_section(nm, pl)] + secs[pos:]
                 yield ('custom', 'custom section %r (%d bytes) at boundary %d' % (nm, len(pl), pos), (lambda s2=s2: wp.emit(hdr, s2)))
+        # the length prefix of the custom section's name in more than one byte: padded LEB128, and a name of 130 bytes
+        for what, nm, nlen in (('name length padded to 2 bytes', 'x', 2), ('name length padded to 5 bytes', 'pad', 5), ('name of 130 bytes', 'n' * 130, None)):
+            cs = wp.custom_section(nm, b'\x01\x02\x03')
+            if nlen:
+                cs.sized.children[0].length = nlen
+            s2 = secs[:pos] + [cs] + secs[pos:]
+            yield ('custom', 'custom section with %s at boundary %d' % (what, pos), (lambda s2=s2: wp.emit(hdr, s2)))
     # data segments: flag 0 <-> flag 2 + memory index 0
     for s in secs:
         if s.id == 11:
